@@ -27,8 +27,11 @@ def generate(rng, tier):
     n, steps = {"quick": (14, 20), "thorough": (200, 40), "search": (50, 25)}.get(tier, (14, 20))
     cases = []
     for i in range(n):
-        kind = "bvisual" if i % 5 == 3 else "bsort"
-        h = history(rng, kind, steps, nscenes=rng.randint(1, 4), api_mix=(i % 4 == 0), shards=rng.randint(1, 4), vshards=rng.randint(1, 4))
+        kind = "bvisual" if i % 5 in (1, 3) else "bsort"
+        # the batch VisualSORT computes the own-area shares per scene inside the batch loop: most of its cases carry
+        # own-area thresholds and several scenes, so that a share taken from another scene of the batch is noticed
+        h = history(rng, kind, steps, nscenes=(rng.randint(2, 4) if kind == "bvisual" else rng.randint(1, 4)), api_mix=(i % 4 == 0),
+                    shards=rng.randint(1, 4), vshards=rng.randint(1, 4), own_p=0.85)
         out = ["trk sel 0", "trk sched jitter %d" % rng.randrange(1 << 30)]
         body = []
         for l in h:
